@@ -301,18 +301,20 @@ func f1HeightsOf(f *sfnt.Font) []int {
 	return out
 }
 
-// cmap recipe: "-" (nil table) or "gH.gx.gf.gi.gfi" (glyph ids, 0 = unmapped)
+// cmap recipe: "-" (nil table) or "gH.gx.gf.gi.gfi.gl.gff.gfl.gffi.gffl" (glyph ids, 0 = unmapped;
+// trailing fields may be omitted)
 func f1BuildCmap(recipe string, n int) cmap.Table {
 	if recipe == "-" || recipe == "" {
 		return nil
 	}
-	var g [5]int
+	var g [10]int
 	p := strings.Split(recipe, ".")
-	for i := 0; i < 5 && i < len(p); i++ {
+	for i := 0; i < 10 && i < len(p); i++ {
 		g[i], _ = strconv.Atoi(p[i])
 	}
 	m := cmap.Format4{}
-	codes := []uint16{'H', 'x', 'f', 'i', 0xFB01}
+	// H x f i fi l ff fl ffi ffl
+	codes := []uint16{'H', 'x', 'f', 'i', 0xFB01, 'l', 0xFB00, 0xFB02, 0xFB03, 0xFB04}
 	for i, c := range codes {
 		if g[i] != 0 {
 			m[c] = glyph.ID(g[i])
@@ -335,6 +337,8 @@ func f1CmapToken(t cmap.Table) string {
 	return f1Tok(t.Encode())
 }
 
+// f1GtabToken: presence ("-" = nil), digest of the encoded table and of the script tags, and the
+// numbers of scripts / features / lookups, so that "present but empty" and "absent" differ.
 func f1GtabToken(info *gtab.Info) string {
 	if info == nil {
 		return "-"
@@ -344,17 +348,52 @@ func f1GtabToken(info *gtab.Info) string {
 		tags = append(tags, t.String())
 	}
 	sort.Strings(tags)
-	return f1Tok(info.Encode(), []byte(strings.Join(tags, ",")))
+	return fmt.Sprintf("%s/s%df%dl%d", f1Tok(info.Encode(), []byte(strings.Join(tags, ","))),
+		len(info.ScriptList), len(info.FeatureList), len(info.LookupList))
 }
 
 func f1GdefToken(t *gdef.Table) string {
 	if t == nil {
 		return "-"
 	}
-	return f1Tok(t.Encode())
+	return fmt.Sprintf("%s/c%da%dm%d", f1Tok(t.Encode()), len(t.GlyphClass), len(t.MarkAttachClass), len(t.MarkGlyphSets))
 }
 
+// f1EmptyGtab: present-but-empty layout tables.  e0 (nothing at all) survives the gtab codec;
+// e0n (the same with a nil instead of an empty script map),
+// e1 (a script without features), e2 (a feature without lookups), e3 (a lookup no feature uses)
+// are reduced to e0 by it (the reader returns an empty Info when the script or lookup list is
+// missing), so they are used for the fixed-point and reproducibility predicates only.
+func f1EmptyGtab(recipe string, gsub bool) *gtab.Info {
+	tag := language.MustParse("und-Latn-x-latn")
+	switch recipe {
+	case "e0":
+		return &gtab.Info{ScriptList: gtab.ScriptListInfo{}}
+	case "e0n": // nil script list: the reader returns an empty map instead
+		return &gtab.Info{}
+	case "e1":
+		return &gtab.Info{ScriptList: gtab.ScriptListInfo{tag: {Required: 0xFFFF}}}
+	case "e2":
+		return &gtab.Info{ScriptList: gtab.ScriptListInfo{tag: {Required: 0xFFFF, Optional: []gtab.FeatureIndex{0}}},
+			FeatureList: []*gtab.Feature{{Tag: "liga"}}}
+	case "e3":
+		if gsub {
+			return &gtab.Info{LookupList: []*gtab.LookupTable{{Meta: &gtab.LookupMetaInfo{LookupType: 1},
+				Subtables: []gtab.Subtable{&gtab.Gsub1_1{Cov: coverage.Set{1: true}, Delta: 1}}}}}
+		}
+		return &gtab.Info{LookupList: []*gtab.LookupTable{{Meta: &gtab.LookupMetaInfo{LookupType: 2},
+			Subtables: []gtab.Subtable{gtab.Gpos2_1{
+				glyph.Pair{Left: 1, Right: 1}: &gtab.PairAdjust{First: &gtab.GposValueRecord{XAdvance: -30}}}}}}}
+	}
+	return nil
+}
+
+func f1CodecStable(recipe string) bool { return recipe == "-" || recipe == "" || recipe == "1" || recipe == "e0" }
+
 func f1BuildGsub(recipe string, n int) *gtab.Info {
+	if strings.HasPrefix(recipe, "e") {
+		return f1EmptyGtab(recipe, true)
+	}
 	if recipe == "" || recipe == "-" || n < 3 {
 		return nil
 	}
@@ -371,6 +410,9 @@ func f1BuildGsub(recipe string, n int) *gtab.Info {
 }
 
 func f1BuildGpos(recipe string, n int) *gtab.Info {
+	if strings.HasPrefix(recipe, "e") {
+		return f1EmptyGtab(recipe, false)
+	}
 	if recipe == "" || recipe == "-" || n < 3 {
 		return nil
 	}
@@ -389,6 +431,9 @@ func f1BuildGpos(recipe string, n int) *gtab.Info {
 }
 
 func f1BuildGdef(recipe string, n int) *gdef.Table {
+	if recipe == "e0" {
+		return &gdef.Table{}
+	}
 	if recipe == "" || recipe == "-" || n < 3 {
 		return nil
 	}
@@ -1090,19 +1135,50 @@ func f1GenFont(c *Ctx) f1FontRecipe {
 			}
 			return r.Range(1, n-1)
 		}
-		g := []int{pickGid(), pickGid(), 0, 0, 0}
-		if n > 4 && r.Bool() {
+		g := []int{pickGid(), pickGid(), 0, 0, 0, 0, 0, 0, 0, 0}
+		switch {
+		case n > 4 && r.Chance(1, 2): // every standard ligature can be synthesised
+			for i := 2; i < 10; i++ {
+				g[i] = r.Range(1, n-1)
+			}
+			c.Stat("cmap ligatures", "f i l + FB00..FB04")
+		case n > 4 && r.Chance(1, 2): // some of them
 			g[2], g[3], g[4] = r.Range(1, n-1), r.Range(1, n-1), r.Range(1, n-1)
+			if r.Bool() {
+				g[5], g[7] = r.Range(1, n-1), r.Range(1, n-1)
+			}
+			c.Stat("cmap ligatures", "f i (l) + fi (fl)")
+		case n > 2 && r.Chance(1, 2): // letters but no ligature code point, or the reverse
+			if r.Bool() {
+				g[2], g[3], g[5] = 1, 2, 1
+			} else {
+				g[4], g[6] = 1, 2
+			}
+			c.Stat("cmap ligatures", "letters or ligatures only")
+		default:
+			c.Stat("cmap ligatures", "none")
 		}
-		rcm = fmt.Sprintf("%d.%d.%d.%d.%d", g[0], g[1], g[2], g[3], g[4])
+		p := make([]string, len(g))
+		for i, x := range g {
+			p[i] = strconv.Itoa(x)
+		}
+		rcm = strings.Join(p, ".")
 	}
 	opt := func() string {
-		if r.Chance(1, 3) {
+		switch r.Intn(8) {
+		case 0, 1:
 			return "1"
+		case 2, 3:
+			return "e0"
+		case 4:
+			return Pick(r, []string{"e0n", "e1", "e2", "e3"})
 		}
 		return "-"
 	}
-	rgsub, rgpos, rgdef := opt(), opt(), opt()
+	rgsub, rgpos, rgdef := opt(), opt(), Pick(r, []string{"-", "-", "1", "e0"})
+	c.Stat("GSUB recipe", rgsub)
+	c.Stat("GPOS recipe", rgpos)
+	c.Stat("GDEF recipe", rgdef)
 	upem := uint16(Pick(r, []int{1000, 1000, 2048, 1024, 16, 16384, 65535}))
 	var fm matrix.Matrix
 	if kind == 'g' {
@@ -1185,6 +1261,13 @@ func f1GenTables(c *Ctx) string {
 	rec := f1GenFont(c)
 	f := rec.font
 	n := f.NumGlyphs()
+	// foreign table sets carry decoder-stable layout tables only
+	if !f1CodecStable(rec.rgsub) {
+		rec.rgsub, f.Gsub = "e0", f1BuildGsub("e0", n)
+	}
+	if !f1CodecStable(rec.rgpos) {
+		rec.rgpos, f.Gpos = "e0", f1BuildGpos("e0", n)
+	}
 	kind := "g"
 	if o, ok := f.Outlines.(*cff.Outlines); ok {
 		kind = "c"
@@ -1481,21 +1564,49 @@ func init() {
 	// font.twice: the same font written n times gives the same bytes (the script tag of the GSUB
 	// table is the parameter: tags without "-x-" extension go through bcp47ToOtf's map scan)
 	ops["font.twice"] = func(f Fields) string {
-		font := f1FontFromFields(parseFields(f1TwiceBase))
-		font.Gsub = f1BuildGsub("1", 8)
-		feat := font.Gsub.ScriptList[language.MustParse("und-Latn-x-latn")]
-		font.Gsub.ScriptList = map[language.Tag]*gtab.Features{language.MustParse(f["tag"]): feat}
-		seen := map[string]bool{}
-		for i := 0; i < f.Int("n"); i++ {
-			seen[string(f1WriteFont(font))] = true
+		var fonts []*sfnt.Font
+		reps := 3
+		switch {
+		case f["tag"] != "": // a GSUB table whose script key is the parameter
+			font := f1FontFromFields(parseFields(f1TwiceBase))
+			font.Gsub = f1BuildGsub("1", 8)
+			feat := font.Gsub.ScriptList[language.MustParse("und-Latn-x-latn")]
+			font.Gsub.ScriptList = map[language.Tag]*gtab.Features{language.MustParse(f["tag"]): feat}
+			fonts, reps = []*sfnt.Font{font}, f.Int("n")
+		case f["sc"] != "": // the font Read returns for a foreign table set
+			data, err := f1AssembleFile(f)
+			if err != nil {
+				return "err:assemble"
+			}
+			g1, err := sfnt.Read(bytes.NewReader(data))
+			if err != nil {
+				return f1ReadErrClass(err)
+			}
+			fonts, reps = []*sfnt.Font{g1}, f.Int("reps")
+		default: // a constructed font, and what Read makes of it
+			font := f1FontFromFields(f)
+			if bad := f1OracleCheck(f, font); bad != "" {
+				return bad
+			}
+			fonts, reps = []*sfnt.Font{font}, f.Int("reps")
+			if g1, err := sfnt.Read(bytes.NewReader(f1WriteFont(font))); err == nil {
+				fonts = append(fonts, g1)
+			}
 		}
-		if len(seen) == 1 {
-			return "same"
+		for gen, font := range fonts {
+			first := f1WriteFont(font)
+			for i := 1; i < reps; i++ {
+				if !bytes.Equal(first, f1WriteFont(font)) {
+					return fmt.Sprintf("differ:write-%d-of-generation-%d", i+1, gen)
+				}
+			}
 		}
-		return fmt.Sprintf("differ:%d-distinct-files", len(seen))
+		return "same"
 	}
+	// font.nf: Read(Write(F)) is the explicit normal form of F (Lean prints nf F)
+	ops["font.nf"] = ops["font.meta"]
 	areas["font"] = func(c *Ctx) {
-		for _, tag := range []string{"und-Latn-x-latn", "und-Zzzz-x-dflt", "en-Latn-x-latn-ENG", "de-Latn-x-latn-DEU"} {
+		for _, tag := range []string{"und-Latn-x-latn", "und-Zzzz-x-dflt", "en-Latn-x-latn-ENG", "de-Latn-x-latn-DEU", "nl", "bn", "und-Beng", "zh-Hans"} {
 			c.Case(Direct, "font.twice", "tag="+tag+" n=20", true)
 		}
 		// sweep (DESIGN Appendix F): weight thresholds x IsBold x IsRegular x family names with weight words
@@ -1509,20 +1620,39 @@ func init() {
 					rec := f1GenFont(c)
 					rec.font.Weight, rec.font.FamilyName = os2.Weight(w), fam
 					rec.font.IsBold, rec.font.IsRegular = fl&1 != 0, fl&2 != 0
-					args := f1LineOfFont(rec.font, rec.rgl, rec.rcm, rec.rgsub, rec.rgpos, rec.rgdef)
-					c.Case(Verdict, "font.meta", args, true)
-					f1EmitFixed(c, args)
+					f1EmitFont(c, rec, false)
 					c.Stat("sweep", "weight x bold x regular x family")
+				}
+			}
+		}
+		// layout-table shapes x ligature synthesis (each of GSUB/GPOS/GDEF nil, empty, non-trivial on
+		// proportional and fixed-pitch fonts whose cmap does or does not allow ligature synthesis)
+		for _, rgsub := range []string{"-", "e0", "e0n", "e1", "e2", "e3", "1"} {
+			for _, rcm := range []string{"1.2.1.2.3.4.5.6.7.3", "1.2.1.2.3", "1.2.1.2.0.3", "1.2", "-"} {
+				for _, mono := range []bool{false, true} {
+					rec := f1GenFont(c)
+					for rec.font.NumGlyphs() < 8 {
+						rec = f1GenFont(c)
+					}
+					n := rec.font.NumGlyphs()
+					rec.rgsub, rec.rcm = rgsub, rcm
+					rec.font.Gsub, rec.font.CMapTable = f1BuildGsub(rgsub, n), f1BuildCmap(rcm, n)
+					ws := make([]float64, n)
+					for i := range ws {
+						ws[i] = 600
+						if !mono && i%2 == 1 {
+							ws[i] = 300
+						}
+					}
+					f1SetWidths(rec.font.Outlines, ws, false)
+					f1EmitFont(c, rec, true)
+					c.Stat("sweep", "GSUB shape x cmap ligatures x pitch")
 				}
 			}
 		}
 		for c.evals < c.N {
 			if c.Rng.Chance(3, 5) {
-				rec := f1GenFont(c)
-				args := f1LineOfFont(rec.font, rec.rgl, rec.rcm, rec.rgsub, rec.rgpos, rec.rgdef)
-				c.Case(Verdict, "font.meta", args, true)
-				c.Case(Verdict, "font.derive", args, true)
-				f1EmitFixed(c, args)
+				f1EmitFont(c, f1GenFont(c), true)
 			} else {
 				args := f1GenTables(c)
 				out := c.Case(Verdict, "font.merge", args, true)
@@ -1534,12 +1664,36 @@ func init() {
 					}
 				}
 				c.Stat("merge outcome", oc)
-				if !strings.HasPrefix(out, "err:") && !strings.HasPrefix(out, "bad") && !strings.HasPrefix(out, "panic") {
+				if oc == "ok" {
 					f1EmitFixed(c, args)
+					c.Case(Direct, "font.twice", args+" reps=3", true)
 				}
 			}
 		}
 	}
+}
+
+// f1EmitFont emits every stream for one constructed font.  Fonts whose layout tables the gtab
+// codec itself reduces (recipes e1..e3) take part in the fixed-point and reproducibility
+// predicates only.
+func f1EmitFont(c *Ctx, rec f1FontRecipe, withDerive bool) {
+	args := f1LineOfFont(rec.font, rec.rgl, rec.rcm, rec.rgsub, rec.rgpos, rec.rgdef)
+	if f1CodecStable(rec.rgsub) && f1CodecStable(rec.rgpos) && f1CodecStable(rec.rgdef) {
+		out := c.Case(Verdict, "font.meta", args, true)
+		if withDerive {
+			c.Case(Verdict, "font.derive", args, true)
+		}
+		if !strings.HasPrefix(out, "err:") && !strings.HasPrefix(out, "bad") && !strings.HasPrefix(out, "panic") {
+			// the property's first clause as a direct predicate: Read(Write(F)) = nf F
+			c.Case(Direct, "font.nf", args, true)
+		}
+	}
+	f1EmitFixed(c, args)
+	reps := 3
+	if c.Rng.Chance(1, 40) {
+		reps = 200
+	}
+	c.Case(Direct, "font.twice", args+fmt.Sprintf(" reps=%d", reps), true)
 }
 
 // f1EmitFixed classifies the first-generation font and emits the fixed-point case: a D case when
